@@ -374,7 +374,14 @@ namespace via
                                 0, 0, 0, 0, 0, 0, 0, 0, 0, 0 };
         time_t uTime;
         time(&uTime);
-        strftime(dateBuffer, 30, DATE_FORMAT, std::gmtime(&uTime));
+        // Note: std::gmtime returns a pointer to a shared static buffer
+        struct tm gmTime;
+#ifdef _MSC_VER
+        gmtime_s(&gmTime, &uTime);
+#else
+        gmtime_r(&uTime, &gmTime);
+#endif
+        strftime(dateBuffer, 30, DATE_FORMAT, &gmTime);
         return to_header(HEADER_DATE, dateBuffer);
       }
 #ifdef _MSC_VER
